@@ -5,11 +5,11 @@
 
    What an event is abstracted to (pev): exactly the parts the property C02
    speaks about — which kind of event, its numeric fields, its characters — plus
-   what decides item-vs-unrecognised.  Payloads that are the business of other
-   properties or of external crates are opaque:
-     - faces (sgr_face / sgr_color, FaceModify::apply): C06.  sgr_face is assumed
-       total: its only partial operations are table indexings guarded by range
-       patterns (decoder.rs:1188-1289).
+   what decides item-vs-unrecognised.  sgr_face / sgr_color are modelled in full
+   (every field of FaceModify, table indexings checked).  Payloads that are the
+   business of external crates are opaque:
+     - FaceModify::apply / FaceAttrs of a DECRPSS reply (FaceGet): only the
+       colours of the face are modelled.
      - the colour text of an OSC reply is parsed by rasterize's `RGBA::from_str`
        first: the OSC decoder's result is `RExt ev` = "Some ev or None, decided
        by the external parser".
@@ -35,6 +35,32 @@ Definition site_arith : N := 6.      (* arithmetic overflow / underflow (debug p
 (* ------------------------------------------------------------------ *)
 (* events, abstracted *)
 
+Definition rgb : Type := (N * N * N)%type.
+
+(* FaceModify (src/face.rs): underline 0 None, 1 Straight, 2 Double, 3 Curly, 4 Dotted, 5 Dashed *)
+Record facem : Type := mk_facem {
+  f_reset : bool;
+  f_fg : option rgb;
+  f_bg : option rgb;
+  f_ul : option N;
+  f_ulc : option rgb;
+  f_bold : option bool;
+  f_italic : option bool;
+  f_blink : option bool;
+  f_strike : option bool
+}.
+Definition facem_default : facem := mk_facem false None None None None None None None None.
+
+(* tables regenerated from the source: code lists of DecMode::from_usize / DecModeStatus::from_usize
+   (src/terminal.rs) and the palette CUBE / GREYS / COLORS of src/decoder.rs *)
+Record dtabs : Type := mk_dtabs {
+  dt_modes : list N;
+  dt_statuses : list N;
+  dt_cube : list N;
+  dt_greys : list N;
+  dt_colors : list rgb
+}.
+
 Inductive pev : Type :=
 | PLit (k : N)                                   (* MatcherTag::Item: k-th literal key event of the automaton *)
 | PChar (c : N)                                  (* Key(Char c) / TerminalCommand::Char(c) from the UTF-8 matcher *)
@@ -47,7 +73,8 @@ Inductive pev : Type :=
 | PDevAttrs (l : list N)                         (* BTreeSet<usize>: increasing, distinct *)
 | PKitty (id : N) (placement : option N) (err : bool)
 | PColor (name idx : N)                          (* name 0 Foreground, 1 Background, 2 Palette(idx); colour opaque *)
-| PFace                                          (* FaceGet(_) / Command(FaceModify(_)) / FaceModify(_): opaque *)
+| PFaceM (f : facem)                             (* Command(FaceModify(f)) / TerminalCommand::FaceModify(f) *)
+| PFaceG (fg bg : option rgb)                    (* FaceGet(face): colours of the face; its attribute set is opaque (C06) *)
 | PTermcap                                       (* Termcap(_): opaque *)
 | PPaste (text : list N).                        (* the UTF-8 bytes of the pasted String *)
 
@@ -208,13 +235,13 @@ Definition dec_cursor (data : list N) : outcome pres :=
 
 (* 2 DecModeMatcher: "\x1b[?{mode};{status}$y"; the code lists are those of DecMode::from_usize /
    DecModeStatus::from_usize, regenerated from src/terminal.rs *)
-Definition dec_decmode (modes statuses : list N) (data : list N) : outcome pres :=
+Definition dec_decmode (tb : dtabs) (data : list N) : outcome pres :=
   let* body := mid data 3 2 in
   match numbers_decode body 59 with
   | m :: rest =>
-      if existsb (N.eqb m) modes then
+      if existsb (N.eqb m) (dt_modes tb) then
         match rest with
-        | s :: _ => if existsb (N.eqb s) statuses then Ok (RSome (PDecMode m s)) else Ok RNone
+        | s :: _ => if existsb (N.eqb s) (dt_statuses tb) then Ok (RSome (PDecMode m s)) else Ok RNone
         | [] => Ok RNone
         end
       else Ok RNone
@@ -234,9 +261,153 @@ Definition dec_devattrs (data : list N) : outcome pres :=
   let* body := mid data 3 1 in
   Ok (RSome (PDevAttrs (to_set (filter (fun v => 0 <? v) (numbers_decode body 59))))).
 
+(* ---- sgr_color / sgr_face (decoder.rs) ---- *)
+
+(* table[i]: Panic where the Rust indexing would *)
+Definition tab {A} (l : list A) (i : N) : outcome A :=
+  match nth_error l (N.to_nat i) with Some a => Ok a | None => Panic site_slice end.
+
+Definition take1 (l : list (list N)) : option (list N) * list (list N) :=
+  match l with [] => (None, []) | x :: r => (Some x, r) end.
+Definition onum (o : option (list N)) : option N :=
+  match o with Some x => number_decode x | None => None end.
+(* u8::try_from(value).ok() *)
+Definition channel (v : N) : option N := if v <=? 255 then Some v else None.
+
+(* sgr_color(cmds, sub_params): the colour and what is left of the iterator *)
+Definition sgr_color (tb : dtabs) (cmds : list (list N)) (sub : bool)
+  : outcome (option rgb * list (list N)) :=
+  match cmds with
+  | [] => Ok (None, [])
+  | c0 :: r0 =>
+      match number_decode c0 with
+      | None => Ok (None, r0)
+      | Some k =>
+          if k =? 5 then
+            match r0 with
+            | [] => Ok (None, [])
+            | c1 :: r1 =>
+                match number_decode c1 with
+                | None => Ok (None, r1)
+                | Some index =>
+                    if index <? 16 then
+                      let* c := tab (dt_colors tb) index in Ok (Some c, r1)
+                    else if index <? 232 then
+                      let i := index - 16 in
+                      let ri := i / 36 in
+                      let i2 := i - ri * 36 in
+                      let gi := i2 / 6 in
+                      let bi := i2 - gi * 6 in
+                      let* r := tab (dt_cube tb) ri in
+                      let* g := tab (dt_cube tb) gi in
+                      let* b := tab (dt_cube tb) bi in
+                      Ok (Some (r, g, b), r1)
+                    else if index <? 256 then
+                      let* v := tab (dt_greys tb) (index - 232) in Ok (Some (v, v, v), r1)
+                    else Ok (None, r1)
+                end
+            end
+          else if k =? 2 then
+            let '(a, r1) := take1 r0 in
+            let '(b, r2) := take1 r1 in
+            let '(c, r3) := take1 r2 in
+            let '(d, r4) := if sub then take1 r3 else (None, r3) in
+            let pick (r g b : N) :=
+              match channel r, channel g, channel b with
+              | Some r', Some g', Some b' => Some (r', g', b')
+              | _, _, _ => None
+              end in
+            match onum a, onum b, onum c, onum d with
+            | Some r, Some g, Some b, None => Ok (pick r g b, r4)
+            | _, Some r, Some g, Some b => Ok (pick r g b, r4)
+            | _, _, _, _ => Ok (None, r4)
+            end
+          else Ok (None, r0)
+      end
+  end.
+
+Definition has_colon (g : list N) : bool := existsb (N.eqb 58) g.
+
+(* SGR 4 / 4:n: underline style *)
+Definition ul_of (o : option N) : N :=
+  match o with
+  | Some 0 => 0
+  | Some 2 => 2
+  | Some 3 => 3
+  | Some 4 => 4
+  | Some 5 => 5
+  | _ => 1
+  end.
+
+(* one iteration of `while let Some(group) = groups.next()`: the face and the groups left *)
+Definition sgr_group (tb : dtabs) (face : facem) (group : list N) (rest : list (list N))
+  : outcome (facem * list (list N)) :=
+  let args := split_on 58 group in
+  let cmd := match args with a0 :: _ => number_decode a0 | [] => None end in
+  let args1 := tl args in
+  let args_empty := negb (has_colon group) in
+  (* sgr_color_thunk: from the following groups (`;` form) or from the sub-parameters (`:` form) *)
+  let color (k : option rgb -> facem) : outcome (facem * list (list N)) :=
+    if args_empty then
+      let* (c, rest') := sgr_color tb rest false in Ok (k c, rest')
+    else
+      let* (c, _) := sgr_color tb args1 true in Ok (k c, rest) in
+  let set (f : facem) := Ok (f, rest) in
+  let with_fg c := mk_facem (f_reset face) c (f_bg face) (f_ul face) (f_ulc face) (f_bold face) (f_italic face) (f_blink face) (f_strike face) in
+  let with_bg c := mk_facem (f_reset face) (f_fg face) c (f_ul face) (f_ulc face) (f_bold face) (f_italic face) (f_blink face) (f_strike face) in
+  let with_ulc c := mk_facem (f_reset face) (f_fg face) (f_bg face) (f_ul face) c (f_bold face) (f_italic face) (f_blink face) (f_strike face) in
+  let with_ul u := mk_facem (f_reset face) (f_fg face) (f_bg face) (Some u) (f_ulc face) (f_bold face) (f_italic face) (f_blink face) (f_strike face) in
+  let with_bold b := mk_facem (f_reset face) (f_fg face) (f_bg face) (f_ul face) (f_ulc face) (Some b) (f_italic face) (f_blink face) (f_strike face) in
+  let with_italic b := mk_facem (f_reset face) (f_fg face) (f_bg face) (f_ul face) (f_ulc face) (f_bold face) (Some b) (f_blink face) (f_strike face) in
+  let with_blink b := mk_facem (f_reset face) (f_fg face) (f_bg face) (f_ul face) (f_ulc face) (f_bold face) (f_italic face) (Some b) (f_strike face) in
+  let with_strike b := mk_facem (f_reset face) (f_fg face) (f_bg face) (f_ul face) (f_ulc face) (f_bold face) (f_italic face) (f_blink face) (Some b) in
+  match cmd with
+  | None => set (mk_facem true None None None None None None None None)
+  | Some v =>
+      if v =? 0 then set (mk_facem true None None None None None None None None)
+      else if v =? 1 then set (with_bold true)
+      else if v =? 22 then set (with_bold false)
+      else if v =? 3 then set (with_italic true)
+      else if v =? 23 then set (with_italic false)
+      else if v =? 4 then set (with_ul (ul_of (match args1 with a1 :: _ => number_decode a1 | [] => None end)))
+      else if v =? 21 then set (with_ul 2)
+      else if v =? 24 then set (with_ul 0)
+      else if v =? 5 then set (with_blink true)
+      else if v =? 25 then set (with_blink false)
+      else if v =? 9 then set (with_strike true)
+      else if v =? 29 then set (with_strike false)
+      else if v =? 38 then color with_fg
+      else if v =? 48 then color with_bg
+      else if v =? 58 then color with_ulc
+      else if (30 <=? v) && (v <=? 37) then let* c := tab (dt_colors tb) (v - 30) in set (with_fg (Some c))
+      else if (90 <=? v) && (v <=? 97) then let* c := tab (dt_colors tb) (v - 82) in set (with_fg (Some c))
+      else if (40 <=? v) && (v <=? 48) then let* c := tab (dt_colors tb) (v - 40) in set (with_bg (Some c))
+      else if (100 <=? v) && (v <=? 107) then let* c := tab (dt_colors tb) (v - 92) in set (with_bg (Some c))
+      else set face
+  end.
+
+(* the loop; every iteration consumes at least one group, `fuel` = number of groups suffices *)
+Fixpoint sgr_loop (tb : dtabs) (fuel : nat) (face : facem) (groups : list (list N)) : outcome facem :=
+  match groups with
+  | [] => Ok face
+  | g :: rest =>
+      match fuel with
+      | O => OutOfFuel
+      | S fuel' =>
+          let* (face', rest') := sgr_group tb face g rest in
+          sgr_loop tb fuel' face' rest'
+      end
+  end.
+
+Definition sgr_face (tb : dtabs) (data : list N) : outcome facem :=
+  let groups := split_on 59 data in
+  sgr_loop tb (length groups) facem_default groups.
+
 (* 4 GraphicRenditionMatcher: Some(sgr_face(&data[2..data.len() - 1])) *)
-Definition dec_sgr (data : list N) : outcome pres :=
-  let* _ := mid data 2 1 in Ok (RSome PFace).
+Definition dec_sgr (tb : dtabs) (data : list N) : outcome pres :=
+  let* body := mid data 2 1 in
+  let* f := sgr_face tb body in
+  Ok (RSome (PFaceM f)).
 
 (* 5 KittyImageMatcher: "\x1b_Gkey=value(,key=value)*;response\x1b\\" *)
 Fixpoint kitty_fields (kvs : list (list N * list N)) (id : N) (pl : option N) : option (N * option N) :=
@@ -358,11 +529,15 @@ Fixpoint ends_with_m (l : list N) : bool :=
   match l with [] => false | [b] => b =? 109 | _ :: r => ends_with_m r end.
 
 (* 9 ReportSettingMatcher: DECRPSS "\x1bP{0|1}$r{data}\x1b\\" *)
-Definition dec_report (data : list N) : outcome pres :=
+Definition dec_report (tb : dtabs) (data : list N) : outcome pres :=
   let* code := index data 2 in
   let* payload := mid data 5 2 in
   if negb (code =? 49) then Ok RNone
-  else if ends_with_m payload then Ok (RSome PFace) else Ok RNone.
+  else if ends_with_m payload then
+    (* sgr_face(&payload[..payload.len() - 1]).apply(Face::default()) *)
+    let* f := sgr_face tb (removelast payload) in
+    Ok (RSome (PFaceG (f_fg f) (f_bg f)))
+  else Ok RNone.
 
 (* hex_decode is lazy: chunks(2), stops at the first chunk that is not two hex digits;
    a final one-element chunk whose byte is a hex digit indexes pair[1] out of range *)
@@ -432,18 +607,18 @@ Definition dec_paste (data : list N) : outcome pres :=
 
 (* the payload decoders by identity (ids as assigned by translate/dfa.py from the Debug names of
    the registered matchers) *)
-Definition payload_by_id (modes statuses : list N) (id : N) (data : list N) : outcome pres :=
+Definition payload_by_id (tb : dtabs) (id : N) (data : list N) : outcome pres :=
   match id with
   | 0 => Ok RNone                                (* BasicEventsMatcher::decode *)
   | 1 => dec_cursor data
-  | 2 => dec_decmode modes statuses data
+  | 2 => dec_decmode tb data
   | 3 => dec_devattrs data
-  | 4 => dec_sgr data
+  | 4 => dec_sgr tb data
   | 5 => dec_kitty_image data
   | 6 => dec_kitty_keyboard data
   | 7 => dec_mouse data
   | 8 => dec_osc data
-  | 9 => dec_report data
+  | 9 => dec_report tb data
   | 10 => dec_termcap data
   | 11 => dec_termsize data
   | 12 => dec_utf8 data
@@ -454,8 +629,8 @@ Definition payload_by_id (modes statuses : list N) (id : N) (data : list N) : ou
 (* `self.automata.matchers[*index].decode(&self.buffer)` (decoder.rs:266): `ids` is the list of
    matchers registered in the automaton (TTY_EVENT_AUTOMATA decoder.rs:42-65, TTY_COMMAND_AUTOMATA
    :66-72), regenerated from the running code *)
-Definition payload_at (ids modes statuses : list N) (i : N) (data : list N) : outcome pres :=
+Definition payload_at (ids : list N) (tb : dtabs) (i : N) (data : list N) : outcome pres :=
   match nth_error ids (N.to_nat i) with
-  | Some id => payload_by_id modes statuses id data
+  | Some id => payload_by_id tb id data
   | None => Panic site_nomatcher
   end.
